@@ -45,6 +45,17 @@ func runC05(c *Ctx) {
 		}
 		checkOneSectionAndCallbackOutside(r, p, pkg, fd, "m")
 	}
+	// the views take their own mutex around single-key operations; an iteration must not hold it while
+	// the consumer runs (directly, or inside the shared map's iterate it is handed to): a consumer that
+	// writes through the same view - or waits for someone who does - would never return
+	for _, name := range []string{"Iterate", "IterateKeys"} {
+		fd := p.FuncDecl(pkg, "mapDB", name)
+		if fd == nil {
+			r.Unresolved("lock/no-callback-under-lock", pkg+".mapDB."+name, "method not found")
+			continue
+		}
+		checkConsumerNotUnderReceiverLock(r, p, pkg, fd)
+	}
 	for _, typ := range []string{"syncedKVMap", "mapDB", "batchedMutations"} {
 		checkAtomicOperations(r, p, "atomic/one-section-per-operation", pkg, typ)
 	}
@@ -176,6 +187,43 @@ func checkOneSectionAndCallbackOutside(r *Reporter, p *Prog, pkg string, fd *ast
 		r.Fail("lock/no-callback-under-lock", fkey, p.posStr(fd.Pos()), bad[0], bad...)
 	} else {
 		r.Pass("lock/no-callback-under-lock", fkey, p.posStr(fd.Pos()), fmt.Sprintf("%d consumer call(s), none between the acquisition and the release of the mutex", len(consumerCalls)))
+	}
+}
+
+// checkConsumerNotUnderReceiverLock: the function-typed parameters of fd are neither called nor
+// handed to another function while any mutex is held by fd - whether the lock is taken inline, by
+// a deferred unlock, or by a locking wrapper the body runs through (lockwrap.go).
+func checkConsumerNotUnderReceiverLock(r *Reporter, p *Prog, pkg string, fd *ast.FuncDecl) {
+	info := p.Pkg(pkg).TypesInfo
+	fkey := funcKey(pkg, fd)
+	params := map[types.Object]bool{}
+	for _, po := range paramObjs(info, fd) {
+		if po != nil {
+			if _, ok := po.Type().Underlying().(*types.Signature); ok {
+				params[po] = true
+			}
+		}
+	}
+	uses, bad := 0, ""
+	seen := map[ast.Node]bool{}
+	AnalyzeLocks(fd.Body, LockSet{}, &FlowOpts{Info: info, SyncCallee: syncCalleeDefault(info)}, func(n ast.Node, stack []ast.Node, held LockSet) {
+		id, ok := n.(*ast.Ident)
+		if !ok || !params[info.Uses[id]] || seen[id] {
+			return
+		}
+		seen[id] = true
+		uses++
+		if len(held) > 0 && bad == "" {
+			bad = fmt.Sprintf("%s: the consumer is used (called or handed on) while %s is held: a consumer that touches the store through this view, or waits for a goroutine that does, dead-locks, and writers are blocked for the whole iteration", p.posStr(id.Pos()), held)
+		}
+	})
+	switch {
+	case uses == 0:
+		r.Fail("lock/no-callback-under-lock", fkey, p.posStr(fd.Pos()), "the consumer parameter is never used (row vacuous)")
+	case bad != "":
+		r.Fail("lock/no-callback-under-lock", fkey, p.posStr(fd.Pos()), bad)
+	default:
+		r.Pass("lock/no-callback-under-lock", fkey, p.posStr(fd.Pos()), fmt.Sprintf("%d use(s) of the consumer, none with a mutex held", uses))
 	}
 }
 
